@@ -70,7 +70,7 @@ class MacroCheck:
         if os.path.exists(path):
             for l in open(path):
                 l = l.strip()
-                if l and not l.startswith('#'):
+                if l and not l.startswith('#') and not l.startswith('fixed:'):
                     e = json.loads(l)
                     if e.get('property') == self.prop and e.get('status', 'open') == 'open':
                         out.append(e)
